@@ -62,6 +62,12 @@ Definition dotc : re := Cls (CS false [(46, 46)]).
 Definition alnum_lc : re := Cls (CS false [(97, 122); (48, 57)]).
 Definition alnum : re := Cls (CS false [(97, 122); (65, 90); (48, 57)]).
 
+(* the small enumerations, as documented (doc/*.rst, class docstrings) - literal, not taken from the regenerated tables *)
+Definition doc_compose_types : list str := [F"test"; F"ci"; F"nightly"; F"production"; F"development"].
+Definition doc_release_types : list str := [F"fast"; F"ga"; F"updates"; F"updates-testing"; F"eus"; F"aus"; F"els"; F"tus"; F"e4s"].
+Definition doc_ci_variant_types : list str := [F"variant"; F"optional"; F"addon"; F"layered-product"].
+Definition doc_ti_variant_types : list str := [F"variant"; F"optional"; F"addon"].
+
 Definition spec_header : list rule :=
   [R (AType (F"version") [TStr]); R (ARe (F"version") [Cat Bol (Cat plus_d (Cat dotc (Cat plus_d Eol)))])].
 
@@ -70,11 +76,11 @@ Definition spec_compose : list rule :=
    ([CTruthy (F"label")], ATrue); ([CTruthy (F"label")], AType (F"final") [TBool]);
    R (AType (F"id") [TStr]); R (ANotBlank (F"id")); R (ARe (F"id") [re_compose_id]);
    R (AType (F"respin") [TInt]);
-   R (AValue (F"type") (pstrs COMPOSE_TYPES))].
+   R (AValue (F"type") (pstrs doc_compose_types))].
 
 Definition spec_ci_base_product : list rule :=
   [R (AType (F"name") [TStr]); R (AType (F"short") [TStr]);
-   R (AType (F"type") [TStr]); R (AValue (F"type") (pstrs RELEASE_TYPES));
+   R (AType (F"type") [TStr]); R (AValue (F"type") (pstrs doc_release_types));
    R (AType (F"version") [TStr]); R (ARe (F"version") [version_shape])].
 
 Definition spec_ci_release : list rule :=
@@ -84,7 +90,7 @@ Definition spec_ci_variant : list rule :=
   [R (ANotBlank (F"arches"));
    R (AType (F"id") [TStr]); R (ARe (F"id") [Cat Bol (Cat (Cat alnum (Star alnum)) Eol)]);
    R (AType (F"name") [TStr]); R (ANotBlank (F"name"));
-   R (AValue (F"type") (pstrs CI_VARIANT_TYPES))].
+   R (AValue (F"type") (pstrs doc_ci_variant_types))].
 
 Definition spec_image : list rule :=
   [R (AType (F"arch") [TStr]); R (ANotBlank (F"arch"));
@@ -113,7 +119,7 @@ Definition spec_ti_release : list rule := R (AType (F"is_layered") [TBool]) :: s
 Definition spec_ti_tree : list rule :=
   [R (AType (F"arch") [TStr]); R (ANotBlank (F"arch"));
    R (AType (F"build_timestamp") [TInt; TFloat]); R (ANotBlank (F"build_timestamp"))].
-Definition spec_ti_variant : list rule := [R (AValue (F"type") (pstrs TI_VARIANT_TYPES))].
+Definition spec_ti_variant : list rule := [R (AValue (F"type") (pstrs doc_ti_variant_types))].
 Definition spec_ti_media : list rule :=
   [R (AType (F"discnum") [TInt; TNone]); R (AType (F"totaldiscs") [TInt; TNone])].
 Definition spec_discinfo : list rule :=
